@@ -228,7 +228,9 @@ func (x *Exec) cover(st *State, label string, n ast.Node) {
 	}
 	if x.con != nil {
 		for _, a := range x.con.AllowDead {
-			if strings.Contains(label, a) {
+			// (matched against the label and the path tags, so that a contract can name a branch - e.g. the default
+			// arm of a type switch - instead of a line number)
+			if strings.Contains(label, a) || strings.Contains(strings.Join(st.tags, "/"), a) {
 				return // the contract declares this code dead under its preconditions
 			}
 		}
